@@ -175,7 +175,7 @@ fn main() {
                     bump(if v.r#type.is_nonnull() { "variable:non-null" } else { "variable:nullable" });
                     if v.default_value.is_some() { bump("variable:with-default"); }
                 }
-                if !allow && vars.definitions.iter().any(|v| !v.r#type.is_nonnull()) { any_config_interesting = true; }
+                if vars.definitions.iter().any(|v| !v.r#type.is_nonnull()) { any_config_interesting = true; }
                 distinct.insert(format!("{sdl}|{text}|{allow}"));
                 runs_coq.push(format!("(mkOpRun {} {} {} {} {} {})", ast_coq::vardefs(vars), coq_bool(allow), coq_opt(&configured, |b| coq_bool(*b).to_string()), ts_coq::tstype(&direct), ops_coq(&w.coalesced()), ts_coq::tstype(&via_config)));
                 runs_j.push(json!({"operation": text, "origin": origin, "accepted": accepted, "allowUndefinedAsOptionalInput": allow, "configured": configured,
@@ -190,7 +190,7 @@ fn main() {
         let body = format!("{} {} {} [{}]", ast_coq::tsdoc(&doc), sopts, coq_str(&ns), runs_coq.join("; "));
         cases.push(format!("CVars false {body}"), dj.clone());
         bump("cases:direct");
-        // the same runs judged on the result obtained through from_config: only where it can differ
+        // the same runs judged on the result obtained through from_config (configuration text -> options)
         if any_config_interesting && (thorough || i % 3 == 0) {
             let mut cj = dj; cj["path"] = json!("from_config");
             cases.push(format!("CVars true {body}"), cj);
